@@ -119,7 +119,7 @@ func (b *Bundle) Plus(kind string) {
 			v = b.rng.IntN(20)
 		}
 		n := pn[(b.id()+v)%len(pn)] + k
-		switch v % 4 {
+		switch v % 5 {
 		case 0: // definition and property names, inline complex schemas below them
 			b.Def(n, jx.Obj{"type": "object", "description": b.lbl("pc"), "properties": jx.Obj{n: b.Obj(), "plain": jx.Obj{"$ref": "#/definitions/" + jx.EscTok(n)}}})
 			b.useRef("#/definitions/"+strings.ReplaceAll(jx.EscTok(n), "%", "%25"), holder)
@@ -133,6 +133,12 @@ func (b *Bundle) Plus(kind string) {
 			f := Pick(b.rng, auxFiles)
 			b.AuxDef(f, n, b.Obj())
 			b.useRef(f+"#/definitions/"+strings.ReplaceAll(jx.EscTok(n), "%", "%25"), holder)
+		case 3: // only '%' that start a VALID escape: they survive the first parse and are decoded on the way to the next one
+			op2 := b.Op("/v"+k+"/x%25y/{id}", "get", false)
+			op2["parameters"] = jx.Arr{jx.Obj{"name": "body", "in": "body", "schema": b.Obj()}}
+			jx.AsObj(op2["responses"])["200"] = jx.Obj{"description": b.lbl("pc"), "schema": b.Obj()}
+			b.Def("v%25"+k, jx.Obj{"type": "object", "description": b.lbl("pc"), "properties": jx.Obj{"q%41": b.Obj()}})
+			b.useRef("#/definitions/v%2525"+k, holder)
 		default: // anonymous pointer below a '%' name, referred to raw (an invalid $ref for most of the names)
 			b.Def("PcHost"+k, jx.Obj{"type": "object", "description": b.lbl("pc"), "properties": jx.Obj{n: b.Obj()}})
 			b.useRef("#/definitions/PcHost"+k+"/properties/"+jx.EscTok(n), holder)
